@@ -34,7 +34,10 @@ static validatorFunction rt_pick_validator(void)
 #endif
 #define RT_AREA(a, pfx) \
   RT_AREA_SIZE(pfx##_size) IN(int, pfx##_wsel) IN(int, pfx##_rsel) IN(uint16_t, pfx##_aflags) IN(uint32_t, pfx##_base) \
-  ASSUME(pfx##_size >= 1u && pfx##_wsel >= 0 && pfx##_wsel <= 2 && pfx##_rsel >= 1 && pfx##_rsel <= 2); \
+  ASSUME(pfx##_size >= 1u); \
+  /* selectors reduced modulo their range (instead of ASSUMEd into it) so that \
+   * natively drawn random inputs are rarely rejected */ \
+  pfx##_wsel = (int)((unsigned)pfx##_wsel % 3u); pfx##_rsel = 1 + (int)((unsigned)pfx##_rsel % 2u); \
   RT_STORE_BLOCK(pfx##_store, pfx##_size) \
   IN_MEM(pfx##_areamem, sizeof(RegisterArea)) \
   RegisterArea *a = (RegisterArea *)pfx##_areamem; \
@@ -46,6 +49,7 @@ static validatorFunction rt_pick_validator(void)
 #define RT_ENTRY(e, a, pfx) \
   IN(int, pfx##_type) IN(int, pfx##_check) IN(uint32_t, pfx##_offset) IN(uint32_t, pfx##_address) \
   IN(uint64_t, pfx##_lim0) IN(uint64_t, pfx##_lim1) IN(uint64_t, pfx##_default) IN(uint16_t, pfx##_eflags) \
+  pfx##_type = (int)((unsigned)pfx##_type % 8u); pfx##_check = (int)((unsigned)pfx##_check % 6u); \
   ASSUME(SPEC_REG_TYPE_OK(pfx##_type) && SPEC_REGV_TYPE_OK(pfx##_check)); \
   ASSUME(pfx##_offset <= (a)->size && SPEC_REG_WORDS(pfx##_type) <= (a)->size - pfx##_offset); \
   RegisterEntry e; \
@@ -222,6 +226,25 @@ void h_rv_validate(void)
   VERIF_CANARY();
 }
 
+/* the call-free macro layer of the spec (used by the contracts) says the same
+ * as the case-by-case function layer, for all arguments */
+void h_spec_layers(void)
+{
+  RT_VALUE(v) IN(uint64_t, in_limit) IN(_Bool, in_during)
+  RT_LONE_ENTRY()
+  RegisterValueU lim; lim.u64 = in_limit;
+  const RegisterType ty = e->type;
+  CHECK(SPEC_BITS(ty, v.value) == spec_bits(ty, v.value), "SPEC_BITS == spec_bits");
+  CHECK(SPEC_FLOAT_OK(ty, v.value) == spec_float_ok(ty, spec_bits(ty, v.value)), "SPEC_FLOAT_OK == spec_float_ok");
+  CHECK(SPEC_MIN_OK(v.type, v.value, lim) == spec_min_ok(v.type, v.value, lim), "SPEC_MIN_OK == spec_min_ok");
+  CHECK(SPEC_MAX_OK(v.type, v.value, lim) == spec_max_ok(v.type, v.value, lim), "SPEC_MAX_OK == spec_max_ok");
+  CHECK(SPEC_VALID(e, v.type, v.value, in_during) == spec_valid(e, v, in_during), "SPEC_VALID == spec_valid");
+  CHECK(rt_valid(*e, v, in_during) == spec_valid(e, v, in_during), "rt_valid == spec_valid");
+  RegisterValueU back = spec_value_of(ty, spec_bits(ty, v.value));
+  CHECK(spec_bits(ty, back) == spec_bits(ty, v.value), "value_of(bits(v)) has the bits of v");
+  VERIF_CANARY();
+}
+
 /* ---- memory-area callbacks ------------------------------------------------ */
 
 void h_reg_mem_write(void)
@@ -393,6 +416,21 @@ void h_##fn(void) \
 
 H_BITOP(register_bit_set)
 H_BITOP(register_bit_clear)
+
+void h_reg_entry_sane(void)
+{
+  RT_TABLE()
+  reg_entry_sane(t, in_idx);
+  VERIF_CANARY();
+}
+
+void h_reg_entry_load_default(void)
+{
+  RT_TABLE()
+  ASSUME(RT_ADDRESSED(t, in_idx));
+  reg_entry_load_default(t, in_idx);
+  VERIF_CANARY();
+}
 
 /* sanitise: a table of 0..RT_SAN_EMAX registers in one area, every
  * type, constraint kind (no always-fail), bound, default, flag word and --
